@@ -2,10 +2,12 @@
 # run every check of a tier on the current tree, one line per check
 cd "$(dirname "$0")/.."
 TIER=${1:-quick}
+OUT=${RUNALL_OUT:-/tmp}
+mkdir -p "$OUT"
 for p in C01 C02 C03 C04 C05 C06 C07 C08 C09 C10 C11 C12 C13 C14 C15 C16 C17 C18 C19 C20; do
   s=$(date +%s)
-  ./check $p --tier $TIER > /tmp/runall_$p.out 2>&1
+  ./check $p --tier $TIER > $OUT/runall_$p.out 2>&1
   rc=$?
   e=$(date +%s)
-  echo "$p exit=$rc $((e-s))s $(grep -c '^VIOLATION' /tmp/runall_$p.out) violations, $(grep -c '^KNOWN-FINDING' /tmp/runall_$p.out) known; $(tail -1 /tmp/runall_$p.out)"
+  echo "$p exit=$rc $((e-s))s $(grep -c '^VIOLATION' $OUT/runall_$p.out) violations, $(grep -c '^KNOWN-FINDING' $OUT/runall_$p.out) known; $(tail -1 $OUT/runall_$p.out)"
 done
